@@ -234,7 +234,7 @@ def regenerate_facts(cfg, exe):
     if not fo:
         return True, ""
     dst = os.path.join(COQ, fo)
-    tmp = dst + ".new"
+    tmp = dst + ".new.%d" % os.getpid()
     kind = cfg.get("harness_kind", "run")
     argv = [exe] + (["-test.run", cfg.get("test_name", "TestVerifHarness")] if kind == "overlay-test" else []) + ["-facts", tmp, "-out", os.path.dirname(tmp)]
     rc, out, dt = sh(argv, cwd=HARNESS, env=GOENV, timeout=600)
